@@ -20,7 +20,7 @@ try:
             shutil.rmtree(outdir, ignore_errors=True)
             if rc == 1 and viol: break
     meta['ran_recheck'] = ran
-    meta['caught_by'] = sorted(set(map(tuple, meta.get('caught_by', []))) | {(r['check'], r['tier']) for r in ran if r['exit'] == 1 and r['violations']})
+    meta['caught_by'] = sorted({(r['check'], r['tier']) for r in ran if r['exit'] == 1 and r['violations']})       # this run only
     meta['caught_by'] = [list(x) for x in meta['caught_by']]
     json.dump(meta, open(os.path.join(d, 'meta.json'), 'w'), indent=1)
     print(json.dumps({'name': name, 'caught_by': meta['caught_by']}))
